@@ -59,8 +59,8 @@ theorem outcome_survives (table : List (List Step)) (S : List (List Exc)) (hS : 
 
 /-! ### serial accept loops -/
 
-theorem pickedUpAt_no_silent (cs : List Conn) (h : ∀ c ∈ cs, c ≠ .silent) (T : Option Nat) :
-    ∀ k, (pickedUpAt T cs k).isSome = true := by
+theorem pickedUpAt_well_behaved (cs : List Conn) (h : ∀ c ∈ cs, c.wellBehaved = true) (R W : Option Nat) :
+    ∀ k, (pickedUpAt R W cs k).isSome = true := by
   induction cs with
   | nil => intro k; cases k <;> rfl
   | cons c rest ih =>
@@ -68,20 +68,21 @@ theorem pickedUpAt_no_silent (cs : List Conn) (h : ∀ c ∈ cs, c ≠ .silent) 
     cases k with
     | zero => rfl
     | succ k =>
-      have hc : c ≠ .silent := h c List.mem_cons_self
+      have hc := h c List.mem_cons_self
       have hr := ih (fun x hx => h x (List.mem_cons_of_mem _ hx)) k
       cases c with
-      | silent => exact absurd rfl hc
+      | silent => cases hc
+      | neverReads w => cases hc
       | completes w =>
         simp only [pickedUpAt, holdTime]
-        cases hp : pickedUpAt T rest k with
+        cases hp : pickedUpAt R W rest k with
         | none => rw [hp] at hr; cases hr
         | some t => rfl
 
-/-- with a read timeout `T` every client is reached, after at most `k · max T B` when every
-    well-behaved request costs at most `B` -/
-theorem pickedUpAt_bounded (T B : Nat) (cs : List Conn) (hB : ∀ w, Conn.completes w ∈ cs → w ≤ B) :
-    ∀ k, ∃ t, pickedUpAt (some T) cs k = some t ∧ t ≤ k * max T B := by
+/-- with every blocking read and write bounded by `T`, every client is reached, after at most
+    `k · (T + B)` when no request costs more than `B` -/
+theorem pickedUpAt_bounded (T B : Nat) (cs : List Conn) (hB : ∀ c ∈ cs, c.work ≤ B) :
+    ∀ k, ∃ t, pickedUpAt (some T) (some T) cs k = some t ∧ t ≤ k * (T + B) := by
   induction cs with
   | nil => intro k; cases k <;> exact ⟨0, rfl, Nat.zero_le _⟩
   | cons c rest ih =>
@@ -89,16 +90,19 @@ theorem pickedUpAt_bounded (T B : Nat) (cs : List Conn) (hB : ∀ w, Conn.comple
     cases k with
     | zero => exact ⟨0, rfl, Nat.zero_le _⟩
     | succ k =>
-      obtain ⟨t, ht, hle⟩ := ih (fun w hw => hB w (List.mem_cons_of_mem _ hw)) k
+      obtain ⟨t, ht, hle⟩ := ih (fun x hx => hB x (List.mem_cons_of_mem _ hx)) k
+      have hw := hB c List.mem_cons_self
       cases c with
       | silent =>
         refine ⟨T + t, by simp [pickedUpAt, holdTime, ht], ?_⟩
-        have : T ≤ max T B := Nat.le_max_left _ _
         rw [Nat.succ_mul]; omega
       | completes w =>
         refine ⟨w + t, by simp [pickedUpAt, holdTime, ht], ?_⟩
-        have h1 : w ≤ B := hB w List.mem_cons_self
-        have : B ≤ max T B := Nat.le_max_right _ _
+        simp only [Conn.work] at hw
+        rw [Nat.succ_mul]; omega
+      | neverReads w =>
+        refine ⟨w + T + t, by simp [pickedUpAt, holdTime, ht], ?_⟩
+        simp only [Conn.work] at hw
         rw [Nat.succ_mul]; omega
 
 end EphVerif.Escape
